@@ -697,6 +697,29 @@ def m3_stringify_and_plain():
                     yield '#define f(a) %s\n%sf(%s)\n' % (body, gd, ' '.join(w))
 
 
+def m3_parameter_names():
+    """parameter names that are prefixes of each other and body identifiers that are prefixes or extensions of parameter names:
+    a body identifier is a parameter only if the whole spelling is equal"""
+    names = ('a', 'ab', 'abc', 'b', 'ba', '_a', 'a1')
+    for p1 in names:
+        for p2 in names:
+            if p1 == p2:
+                continue
+            for n in (1, 2, 3):
+                for body in itertools.product(names[:5], repeat=n):
+                    if n == 3 and body[0] not in (p1, p2):
+                        continue
+                    yield '#define f(%s, %s) [%s]\nf(1, 2)\n' % (p1, p2, ' '.join(body))
+            for x in names[:5]:
+                yield '#define f(%s, %s) #%s\nf(1, 2)\n' % (p1, p2, x)       # # must be followed by a parameter: else the definition is refused
+        for n in (1, 2):
+            for body in itertools.product(names, repeat=n):
+                yield '#define f(%s) <%s>\nf(7)\n' % (p1, ' '.join(body))
+        yield '#define f(%s, ...) __VA_ARGS__ | %s | %s\nf(1, 2, 3)\n' % (p1, p1, p1[:1])
+    for v in ('__VA_ARGS', '__VA_ARGS___', '_VA_ARGS__', '__VA_ARGS__x', '__va_args__'):
+        yield '#define f(a, ...) [%s]\nf(1, 2)\n' % v
+
+
 def m3_opened_by_other_macro():
     """an invocation whose '(' (and first tokens) come from another macro's replacement list that ends before the
     invocation does; the rest of the argument list contains macros whose expansion has commas, parentheses or is empty"""
@@ -715,6 +738,7 @@ def m3_opened_by_other_macro():
 def m3_sources(full):
     out = []
     out.extend(m3_stringify_and_plain())
+    out.extend(m3_parameter_names())
     out.extend(m3_opened_by_other_macro())
     for defs, text in ((EX3_DEFS, EX3_TEXT), (EX4_DEFS, EX4_TEXT), (EX7_DEFS, EX7_TEXT)):
         out.extend(perturbations(defs, text))
